@@ -238,6 +238,15 @@ class Oracle:
             enc, st, sp = [unh(x) for x in encs.split(" ")]
             self.chk(dec == "ok %s %s" % (f[0], f[1]) and st <= enc < sp, "rt-json-" + cid, [cid],
                      "decodeJSONKey(encodeJSONKey(x)) != x or key outside the table's json range", impl=out)
+        for cid, f, out in per.get("HK", []):
+            if f[5] != "0" or len(unh(f[0])) >= 65536 or len(unh(f[1])) >= 65536:
+                continue
+            keys, a, b = out.split(" | ")
+            nk, sk, st, sp = [unh(x) for x in keys.split(" ")]
+            self.chk(a == "ok %s %s %s %s" % (f[0], f[1], f[2], f[4]) and b == "ok %s %s %s %s" % (f[0], f[1], f[3], f[4]),
+                     "rt-hindex-" + cid, [cid], "decodeHsetIndex*Key(encodeHsetIndex*Key(x)) != x", impl=out)
+            self.chk(st <= nk < sp and st <= sk < sp and sp[:-1] == st[:-1] and st[-1] == 0x3A and sp[-1] == 0x3B,
+                     "hindex-inrange-" + cid, [cid], "index key outside the [start, stop) range of its (table, index)", impl=out)
         for cid, f, out in per.get("XK", []):
             keys, a, b = out.split(" | ")
             self.chk(a == "ok %s %s %s" % (f[0], f[1], f[2]) and b == "ok %s %s" % (f[0], f[1]), "rt-exp-" + cid, [cid],
@@ -514,7 +523,7 @@ def run(ctx):
         raise SystemExit(2)
     vlib.regen_consts("Codec", "codec")
     # the model files first and on their own: they must be available to the extraction even when a proof breaks
-    mdl_ok, mdl_out, _ = vlib.coq_make(["Codec/Keys.vo", "Codec/RangeOps.vo", "Codec/Spec.vo"])
+    mdl_ok, mdl_out, _ = vlib.coq_make(["Codec/Keys.vo", "Codec/RangeOps.vo", "Codec/HIndex.vo", "Codec/Spec.vo"])
     if not mdl_ok:
         log("MODEL DOES NOT COMPILE:\n" + vlib.tail_err(mdl_out))
         raise SystemExit(2)
